@@ -417,10 +417,8 @@ class UnitFam(Family):
     def finding(self, c):
         lit = 0 if c["op"] in ("add", "sub") else 1
         v = c["val"]
-        # exactly the matcher's tolerance region minus the literal itself: isclose(v, lit, rel 1e-5, abs 1e-8) and v != lit
-        if v != lit and abs(v - lit) <= max(1e-5 * max(abs(v), abs(lit)), 1e-8):
-            return "D3"
-        if c["origin"] == "ginit":
+        # D3 (literal tolerance) is fixed in /repo (6800bd1): integer literals match exactly; witnesses in the corpus
+        if c["origin"] == "ginit" and v == lit:
             return "C05-N1"
         return None
 
